@@ -30,9 +30,11 @@ class FormBuilder(object):
 
 
 class ParserViews(object):
-    def __init__(self, embed, density, density_fs, pair=None):
+    def __init__(self, embed, density, density_fs, pair=None, fallback_class=None):
         self.views = {"eam_embed": embed, "eam_density": density, "eam_density_fs": density_fs,
                       "pair": pair if pair is not None else ListV([], "list")}
+        # anything else the builders ask of the parser is the real ConfigParser's own method, run on these views
+        self.fallback_class = fallback_class
 
     def __getattr__(self, name):
         if name.startswith("get_") and name[4:] in self.__dict__.get("views", {}):
@@ -101,7 +103,8 @@ def build(P, make, fs, embed, density, missing=(), pair=None):
     st[pfb.fq] = lambda J, ci, args, kwargs: PyObjV(FormBuilder())
     e = rows(P, I, "embed", embed)
     d = rows(P, I, "fs" if fs else "density", density)
-    cp = PyObjV(ParserViews(e, None if fs else d, d if fs else None, pair))
+    cp = PyObjV(ParserViews(e, None if fs else d, d if fs else None, pair,
+                            fallback_class=P.cls("atsim.potentials.config._config_parser", "ConfigParser")))
     cls = P.cls(BUILDER_MOD, "EAM_Potential_Builder_FS" if fs else "EAM_Potential_Builder")
     try:
         b = I.instantiate(cls, [cp, Opaque(("collaborator", "potential_form_registry")), Opaque(("collaborator", "modifier_registry"))],
